@@ -372,6 +372,61 @@ class _ShortReader:
         return self.pos
 
 
+FRAMING_SIZES = sorted({n + d for n in (2**7, 2**13, 2**14, 2**20, 2**21) for d in (-1, 0, 1)} | {0, 1, 300, 8192, 12000, 16383})
+
+
+def check_framing_sizes(tally: Tally) -> List[Violation]:
+    """The length prefix at every size around the varint boundaries (1, 2, 3, 4 bytes; also sizes
+    whose bit length is a multiple of 7): betterproto's delimited dump must equal the wire model's
+    and the reference's framing byte for byte, and be read back."""
+    bp, ref = state()
+    out: List[Violation] = []
+    for n in FRAMING_SIZES:
+        tally.inc("framing_sizes")
+        if n == 0:
+            aval: Dict[str, Any] = {}
+        elif n == 1:
+            continue  # no message of W encodes to a single byte
+        else:
+            # field 2 (string): 1 tag byte + length varint + payload
+            k = n - 1 - wire.varint_len(n - 3 if n - 3 >= 0 else 0)
+            for kk in (k, k - 1, k + 1, k - 2, k + 2):
+                if kk >= 0 and 1 + wire.varint_len(kk) + kk == n:
+                    k = kk
+                    break
+            else:
+                continue
+            aval = {"s": "x" * k}
+        try:
+            m = av.make_bp(bp, SCHEMA, SCHEMA.msg("W"), aval, "ctor")
+            body = bytes(m)
+            if len(body) != n:
+                raise HarnessError(f"framing size construction: wanted {n} bytes, built {len(body)}")
+            s = io.BytesIO()
+            m.dump(s, betterproto.SIZE_DELIMITED)
+            got = s.getvalue()
+            want = wire.delimited(body)
+            refout = io.BytesIO()
+            refproto.serialize_length_prefixed(av.make_ref(SCHEMA, ref, SCHEMA.msg("W"), aval), refout)
+            if refout.getvalue() != want:
+                raise HarnessError("wire model and reference disagree on the length prefix of a %d-byte message" % n)
+            if got != want:
+                out.append(Violation(["stream", "framing-size", f"prefix-bytes-{wire.varint_len(n)}"],
+                                     f"message of {n} bytes: delimited dump starts {got[:6].hex()}, reference framing {want[:6].hex()} "
+                                     f"(stream {len(got)} bytes, expected {len(want)})", {"framing_size": n}))
+                continue
+            back = bp.W().load(io.BytesIO(got), betterproto.SIZE_DELIMITED)
+            if bytes(back) != body:
+                out.append(Violation(["stream", "framing-size-readback", f"prefix-bytes-{wire.varint_len(n)}"],
+                                     f"message of {n} bytes is not read back", {"framing_size": n}))
+        except HarnessError:
+            raise
+        except Exception as e:
+            out.append(Violation(["stream", "framing-size-raised", f"prefix-bytes-{wire.varint_len(n)}"],
+                                 f"message of {n} bytes: {type(e).__name__}: {e}"[:300], {"framing_size": n}))
+    return out
+
+
 def sequences(maxlen: int):
     n = len(ALPHABET)
     for ln in range(1, maxlen + 1):
@@ -404,6 +459,13 @@ def run(ctx: Ctx) -> None:
     # with its own signature (signatures name only the messages involved)
     for vj in t.violations:
         ctx.add(Violation.from_json(vj))
+    tf = Tally()
+    seen_f = set()
+    for v in check_framing_sizes(tf):
+        if tuple(v.signature) not in seen_f:
+            seen_f.add(tuple(v.signature))
+            ctx.add(v)
+    ctx.coverage.update(framing_sizes=tf.n.get("framing_sizes", 0))
     ctx.coverage.update(
         evaluations=t.n.get("cuts", 0),
         distinct_nontrivial=len(t.sets.get("distinct", ())),
@@ -421,5 +483,7 @@ def run(ctx: Ctx) -> None:
 
 def replay(case: dict) -> List[Violation]:
     state()
+    if "framing_size" in case:
+        return [v for v in check_framing_sizes(Tally()) if v.case == case]
     vs = eval_sequence(tuple(case["seq"]), case["reader"], Tally())
     return vs
